@@ -223,6 +223,29 @@ def maccrowd_script(rng, mode):
     return out
 
 
+def bigmac_script(rng, mode):
+    """One MAC seen on more addresses than any per-MAC limit a cache or flood guard might have (36 addresses:
+    20 IPv4, 4 link-local, 12 global / unique-local / IPv4-mapped), some through ARP, then aged and purged."""
+    m = rng.choice(CLIENTS)
+    ips = ["a%d" % i for i in range(1, 21)] + LLA + GUA + ["q%d" % i for i in range(1, 7)]
+    rng.shuffle(ips)
+    fr = "fip" if mode == "notify" else "ip"
+    out = [{"a": "cfg", "cfg": rng.choice([0, 2])}]
+    for ip in ips:
+        if ip[0] == "a" and rng.random() < 0.3:
+            a = {"a": "farp" if mode == "notify" else "arp", "src": rng.choice(["router", m]), "key": m, "ip": ip}
+            if a["src"] == m:
+                a = {"a": fr, "src": m, "key": m, "ip": ip}
+        else:
+            a = {"a": fr, "src": m, "key": m, "ip": ip}
+        if mode == "notify":
+            a.update({"slot": "dhcp", "name": "noname"})
+        out.append(a)
+    out += [{"a": "adv", "d": 3}, {"a": "purge"}, {"a": "adv", "d": 5}, {"a": "purge"}]
+    out += [dict({"a": fr, "src": m, "key": m, "ip": ip}, **({"slot": "dhcp", "name": "noname"} if mode == "notify" else {})) for ip in rng.sample(ips, 4)]
+    return out
+
+
 def saturation_script(rng, mode):
     """A caller that never reads Session.C: more than 128 notifications pile up (the channel is full and further ones
     are dropped), then hosts must still age out and be removed."""
@@ -425,7 +448,8 @@ def run_family(ctx, check, modes, shared=False):
         k = 6 if quick else 30
         behaviours.append(("rand-%s" % mode, [random_script(rng, mode, ln) for _ in range(n)] +
                            [crowd_script(rng, mode) for _ in range(k)] + [maccrowd_script(rng, mode) for _ in range(k)] +
-                           [saturation_script(rng, mode) for _ in range(2 if quick else 10)]))
+                           [saturation_script(rng, mode) for _ in range(2 if quick else 10)] +
+                           [bigmac_script(rng, mode) for _ in range(3 if quick else 20)]))
         # a legal configuration with PurgeDeadline < OfflineDeadline (separate TLC constants)
         r = run_mc(ctx, mode, 3, export_every=4 if quick else 2, dl=ALT)
         cov["tlc"]["mc_%s_depth3_altdeadlines" % mode] = r.summary()
